@@ -160,6 +160,18 @@ class Collector:
                 for item in ch:
                     self.items.append((next(self.lab.clock), i, item))
                 self.ends.append((i, "StopIteration"))
+            elif self.mode == "poll":
+                # a consumer that polls with a short timeout (an event loop, a supervisor with other things to do)
+                t_end = time.monotonic() + self.timeout
+                while True:
+                    try:
+                        item = ch.receive(0.002)
+                    except ch.TimeoutError:
+                        if time.monotonic() > t_end:
+                            raise
+                        continue
+                    t_end = time.monotonic() + self.timeout
+                    self.items.append((next(self.lab.clock), i, item))
             else:
                 while True:
                     item = ch.receive(self.timeout)
